@@ -25,10 +25,13 @@ def showVal : Val → String
 def showVals (vs : List Val) : String :=
   if vs.isEmpty then "-" else ";".intercalate (vs.map showVal)
 
+/-- the observable error class is what the Go error VALUE tells, never its text: the sentinel errShortRead is
+    `short`; wrong type, parse error and field error are untyped `fmt.Errorf` values — one class `err` -/
 def showErr : Err → String
-  | .wrongType => "err:type"
   | .short => "err:short"
-  | .parse => "err:parse"
+  | .wrongType => "err:err"
+  | .parse => "err:err"
+  | .field => "err:err"
   | .panic => "panic"
 
 def parseName (s : String) : Option Bytes := if s == "." then some [] else ofHex s
@@ -58,9 +61,22 @@ def showKind : Kind → String
   | .bool => "b" | .arr n => "a" ++ toString n | .u8 => "c" | .u32 => "u" | .u64 => "q"
   | .str => "s" | .bytes => "y" | .rest => "r" | .names => "n" | .mpint => "i"
 
+/-- caller-memory contract of Unmarshal (what the code does): the input is never written (`mut=-`); `[]byte`
+    fields are sub-slices of the input and a `rest` field is its tail — they alias the caller's buffer — while
+    strings, arrays, name-lists and mpints are copies.  `alias=` lists the 0-based indices of the aliasing
+    fields (an empty slice has no bytes to share). -/
+def aliasOf (vs : List Val) : String :=
+  let idx := (vs.zip (List.range vs.length)).filterMap fun vi =>
+    match vi.1 with
+    | .bytes b => if b.isEmpty then none else some (toString vi.2)
+    | .rest b => if b.isEmpty then none else some (toString vi.2)
+    | _ => none
+  if idx.isEmpty then "-" else ",".intercalate idx
+
 def showUm : Except Err (List Val) → String
-  | .error e => showErr e
-  | .ok vs => "ok " ++ showVals vs
+  | .error .panic => "panic"
+  | .error e => showErr e ++ " mut=-"
+  | .ok vs => "ok " ++ showVals vs ++ " mut=- alias=" ++ aliasOf vs
 
 def handle (line : String) : String :=
   let o := parseOp line
@@ -73,8 +89,9 @@ def handle (line : String) : String :=
     match o.hex? "data" with
     | some d =>
       match decode d with
-      | .error e => showErr e
-      | .ok (name, vs) => s!"ok {name} {showVals vs}"
+      | .error .panic => "panic"
+      | .error e => showErr e ++ " mut=-"
+      | .ok (name, vs) => s!"ok {name} {showVals vs} mut=- alias={aliasOf vs}"
     | none => "bad-op"
   | "ms" =>
     match schemaOf (o.str "t"), (o.get? "v").bind parseVals with
@@ -82,7 +99,7 @@ def handle (line : String) : String :=
       if !(s.fields.isEmpty) && !(typed vs s.fields) then "bad-op" else
       match marshal s vs with
       | none => "panic"
-      | some b => s!"{toHex b} rt={showUm (unmarshal s b)}"
+      | some b => s!"{toHex b} mut=- rt={showUm (unmarshal s b)}"
     | _, _ => "bad-op"
   | "int" =>
     match o.int? "n" with
@@ -99,14 +116,14 @@ def handle (line : String) : String :=
   | "pint" =>
     match o.hex? "data" with
     | some d => match parseInt d with
-      | some (v, r) => s!"ok {v} {toHex r}"
-      | none => "err"
+      | some (v, r) => s!"ok {v} {toHex r} mut=-"
+      | none => "err mut=-"
     | none => "bad-op"
   | "pnl" =>
     match o.hex? "data" with
     | some d => match parseNameList d with
-      | some (l, r) => s!"ok {showNames l} {toHex r}"
-      | none => "err"
+      | some (l, r) => s!"ok {showNames l} {toHex r} mut=-"
+      | none => "err mut=-"
     | none => "bad-op"
   | "schema" =>
     match schemaOf (o.str "t") with
